@@ -772,6 +772,9 @@ func (vc *VC) loopHavoc(li *loopInfo, heap *Heap) *Heap {
 		}
 	}
 	if len(all) > 0 {
+		if vc.ringMode {
+			all["fe"] = true
+		}
 		names := sortedKeys(all)
 		for _, c := range names {
 			old := hh.m[c]
